@@ -4,10 +4,10 @@ package main
 // atoms (go/cfg does not split && and ||), with alias-aware canonical access paths.
 
 import (
-	"golang.org/x/tools/go/cfg"
 	"go/ast"
 	"go/token"
 	"go/types"
+	"golang.org/x/tools/go/cfg"
 	"strings"
 )
 
@@ -139,7 +139,54 @@ func (fn *Func) GuardsAt(n ast.Node) *Formula {
 			break
 		}
 	}
-	return fn.expandBoolVars(fAnd(parts...), 2)
+	return fn.expandHelperCalls(fn.expandBoolVars(fAnd(parts...), 2), 2)
+}
+
+// expandHelperCalls: an atom that calls a boolean helper of the same package whose body is a
+// single `return <expr>` additionally contributes that expression with the arguments
+// substituted (guard recognition through one level of helper extraction).
+func (fn *Func) expandHelperCalls(f *Formula, depth int) *Formula {
+	if f == nil || depth == 0 {
+		return f
+	}
+	if f.Op != 0 {
+		out := &Formula{Op: f.Op}
+		for _, s := range f.Sub {
+			out.Sub = append(out.Sub, fn.expandHelperCalls(s, depth))
+		}
+		return out
+	}
+	a := f.Atom
+	if a == nil || a.E == nil {
+		return f
+	}
+	call, ok := ast.Unparen(a.E).(*ast.CallExpr)
+	if !ok {
+		return f
+	}
+	info := fn.Info()
+	callee := calleeOf(info, call)
+	if callee == nil || callee.Pkg() == nil || callee.Pkg() != fn.Pkg.Types {
+		return f
+	}
+	cf := fn.Prog.FuncOf[callee]
+	if cf == nil || cf.Body == nil || len(cf.Body.List) != 1 || cf.Decl == nil || cf.Decl.Recv != nil {
+		return f
+	}
+	ret, ok := cf.Body.List[0].(*ast.ReturnStmt)
+	if !ok || len(ret.Results) != 1 {
+		return f
+	}
+	sig := callee.Type().(*types.Signature)
+	if sig.Variadic() || sig.Params().Len() != len(call.Args) {
+		return f
+	}
+	body := ret.Results[0]
+	for i := 0; i < sig.Params().Len(); i++ {
+		body = substExpr(body, sig.Params().At(i), call.Args[i], info)
+	}
+	mark := &Formula{Atom: &Atom{E: a.E, Pol: a.Pol, Fact: a.Fact, Expanded: true}}
+	return fAnd(mark, fn.expandHelperCalls(fn.expandBoolVars(decompose(body, a.Pol, a.Fact), 1), depth-1))
 }
 
 // expandBoolVars: an atom that is a local boolean variable defined exactly once by a pure
@@ -529,7 +576,9 @@ func isCtyConst(info *types.Info, e ast.Expr, name string) bool {
 // function entry to `at` must cross, after its last assignment to the variables involved, an
 // edge whose condition (decomposed, with bool-variable expansion) establishes q. It accepts
 // the control-flow shapes that plain dominance cannot see, e.g.
-//     if a { if !b { return }; x = … }      // at the use: a→b on every path
+//
+//	if a { if !b { return }; x = … }      // at the use: a→b on every path
+//
 // Used as a fallback when the dominance-based test fails.
 func (fn *Func) HoldsOnAllPaths(at ast.Node, q func(*Atom) bool) bool {
 	g := fn.CFG()
